@@ -76,17 +76,50 @@ Proof. exact reach_lock_has_live_holder. Qed.
    fresh, nothing opened on a draining worker) && specI (every handler entry on a
    session is by the owner, on the owning worker, with the session's own token,
    and the session was neither closed nor expired when the request arrived).
-   Proved here: the specL and specC conjuncts.  Missing: the specI conjunct as a
+   && specX (no 204 DELETE ran Close under another request's handler).
+   Proved here: the specL, specC and specX conjuncts.  Missing: the specI conjunct as a
    trace monitor (its content is theorem 1 at the state level; specI itself is
    evaluated on every implementation trace by the correspondence check). *)
-Theorem spec_holds_on_model_partial : forall i, specL i (model i) && specC i (model i) = true.
-Proof. exact model_meets_spec_LC. Qed.
+Theorem spec_holds_on_model_partial : forall i, specL i (model i) && specC i (model i) && specX i (model i) = true.
+Proof. exact model_meets_spec_LCX. Qed.
+
+(* 6. Teardown is serialized with calls.  State form: whenever a DELETE
+   /__session__ is inside its critical section on s (about to run, or having
+   run, registry.close and with it the state's Close()), no request is inside a
+   handler on s and no other thread holds s -- for every schedule. *)
+Theorem teardown_under_lock : forall dttl ps sched st tr t th s u,
+  run dttl ps (init ps) sched = (st, tr) ->
+  nth_error (thrs st) t = Some th -> t_ph th = PhDel s u ->
+  in_call_other st t s = false /\
+  forall t' th', nth_error (thrs st) t' = Some th' -> held_by th' = Some s -> t' = t.
+Proof. exact teardown_alone. Qed.
+
+(* Trace form (the monitor evaluated on the implementation): no DELETE that
+   answers 204 ever had the state's Close() run while another request was inside
+   its handler on that session. *)
+Theorem teardown_serialized : forall i, specX i (model i) = true.
+Proof. exact specX_model. Qed.
+
+(* The swapped order -- registry.close BEFORE entry.lock.Lock() in
+   handleStickyDelete ([model_sw]) -- violates it: request 1 is inside its
+   handler on session 0 when DELETE 2 closes the state underneath it. *)
+Definition alice : caller := Auth (str "bearer") (str "alice").
+Definition teardown_witness : input :=
+  {| i_dttl := 250%Z;
+     i_progs := [PReq 0 alice TNone true 150%Z [HOpen] OOk;
+                 PReq 0 alice (TOf 0) false 0%Z [] OOk;
+                 PDelete 0 alice (TOf 0)];
+     i_sched := [0; 0; 0; 1; 1; 2; 2; 2; 1; 2; 2; 2]%nat |}.
+Theorem delete_close_before_lock_refuted :
+  specX teardown_witness (model_sw teardown_witness) = false
+  /\ In (EUnder 2 0) (o_trace (model_sw teardown_witness))
+  /\ spec_ok teardown_witness (model teardown_witness) = true.
+Proof. vm_compute. repeat split. tauto. Qed.
 
 (* Not part of the property text, recorded because the model exhibits it: a
    request that resolved its token while another request held the session runs
    its handler after that other request closed the session (the state object it
    sees has already been Close()d). *)
-Definition alice : caller := Auth (str "bearer") (str "alice").
 Definition stale_witness : input :=
   {| i_dttl := 250%Z;
      i_progs := [PReq 0 alice TNone true 150%Z [HOpen] OOk;
